@@ -93,7 +93,8 @@ def oracle(cases, results):
             text = c['src'].get('text', '')
             unknown = any(w['kind'] == 'notExist' for w in r['warns'])
             has_ignore = re.search(r'(?im)^\s*\$?ignore\b', text) is not None
-            if not unknown and not has_ignore:
+            suppressed = bool((c.get('opts') or {}).get('supress_command_not_exist'))
+            if not unknown and not has_ignore and not suppressed:
                 for l in r['out']:
                     w = l.split(' ')[0]
                     if w in DUCKLING_ONLY or w.startswith('$'):
